@@ -564,6 +564,7 @@ pub fn limit_pair(max: f64) -> BoxedStrategy<(f64, f64)> {
     prop_oneof![
         4 => (-max..max, 0.01..TWO_PI * 0.999).prop_map(move |(a, w)| (a, a + w)),          // ordinary
         3 => (-max..max, 0.01..TWO_PI * 0.999).prop_map(move |(a, w)| (a, a + w - TWO_PI)), // wrapping: to < from, same arc start
+        1 => (-max..max, 0.01..TWO_PI * 0.999).prop_map(move |(a, w)| (a, a + w - 2.0 * TWO_PI)), // wrapping, written more than a turn below (from - to > 2pi)
         1 => (-max..max, TWO_PI..2.0 * TWO_PI).prop_map(|(a, w)| (a, a + w)),               // span >= 2pi
         1 => (-max..max).prop_map(|a| (a, a)),                                              // equal: unconstrained
     ]
